@@ -239,3 +239,66 @@ pub fn inactive_peer(_a: &Value) -> Value {
                "violation":violation,"why": if violation {"the slot of a connection the server closed for inactivity was not released within 6 s (its handler is still running)"} else {""}})
     })
 }
+
+/// An HTTP request counts while it is processed - and no longer: when the peer goes away in the middle of a call, the handler's work is dropped together with the
+/// slot; it must not keep running next to the request that was admitted in its place.
+pub fn http_peer_gone(_a: &Value) -> Value {
+    use std::sync::atomic::{AtomicUsize, Ordering};
+    use std::sync::Arc;
+    struct InFlight(Arc<AtomicUsize>);
+    impl Drop for InFlight {
+        fn drop(&mut self) {
+            self.0.fetch_sub(1, Ordering::SeqCst);
+        }
+    }
+    let rt = tokio::runtime::Builder::new_multi_thread().worker_threads(2).enable_all().build().unwrap();
+    rt.block_on(async move {
+        let running = Arc::new(AtomicUsize::new(0));
+        let mut m = RpcModule::new(running.clone());
+        m.register_async_method("hang", |_, running, _| async move {
+            running.fetch_add(1, Ordering::SeqCst);
+            let _guard = InFlight(running.as_ref().clone());
+            futures_util::future::pending::<()>().await;
+            "unreachable"
+        })
+        .unwrap();
+        m.register_method("probe", |_, running, _| running.load(Ordering::SeqCst)).unwrap();
+        let cfg = ServerConfig::builder().max_connections(1).build();
+        let server = Server::builder().set_config(cfg).build("127.0.0.1:0").await.unwrap();
+        let addr = server.local_addr().unwrap();
+        let handle = server.start(m);
+        let body = r#"{"jsonrpc":"2.0","id":1,"method":"hang"}"#;
+        let mut sock = TcpStream::connect(addr).await.unwrap();
+        let rq = format!("POST / HTTP/1.1\r\nHost: {addr}\r\nContent-Type: application/json\r\nContent-Length: {}\r\n\r\n{}", body.len(), body);
+        let _ = sock.write_all(rq.as_bytes()).await;
+        for _ in 0..100 {
+            if running.load(Ordering::SeqCst) == 1 {
+                break;
+            }
+            tokio::time::sleep(Duration::from_millis(10)).await;
+        }
+        let started = running.load(Ordering::SeqCst) == 1;
+        let refused = http_post(addr, r#"{"jsonrpc":"2.0","id":2,"method":"probe"}"#).await;
+        drop(sock);
+        // the slot comes back; the request admitted next must be alone
+        let mut seen = None;
+        for _ in 0..30 {
+            tokio::time::sleep(Duration::from_millis(100)).await;
+            let Ok(mut s2) = TcpStream::connect(addr).await else { continue };
+            let b2 = r#"{"jsonrpc":"2.0","id":3,"method":"probe"}"#;
+            let rq = format!("POST / HTTP/1.1\r\nHost: {addr}\r\nContent-Type: application/json\r\nConnection: close\r\nContent-Length: {}\r\n\r\n{}", b2.len(), b2);
+            let _ = s2.write_all(rq.as_bytes()).await;
+            let mut out = Vec::new();
+            let _ = tokio::time::timeout(Duration::from_secs(3), s2.read_to_end(&mut out)).await;
+            let txt = String::from_utf8_lossy(&out).to_string();
+            if txt.starts_with("HTTP/1.1 200") {
+                seen = txt.split("\r\n\r\n").nth(1).and_then(|b| serde_json::from_str::<Value>(b).ok()).and_then(|v| v["result"].as_u64());
+                break;
+            }
+        }
+        let _ = handle.stop();
+        let violation = !started || seen.is_none() || seen != Some(0);
+        json!({"scenario":"c11_http_peer_gone","observed":{"handler_started":started,"second_while_busy":refused,"handlers_running_next_to_the_admitted_request":seen},"violation":violation,
+               "why": if violation {"after the peer of an HTTP call went away its handler kept running while the freed slot served another request (or the slot never came back)"} else {""}})
+    })
+}
